@@ -38,20 +38,20 @@ def J (R : Nat) (cyc : List Nat) (w : World) : Prop :=
   ∀ y, y ∉ cyc → V0 R w y → isCheckedR (getRec w R y) R = false → (getRec w R y).isGenerated = true →
     (getRec w R y).isOverride = false → ∀ row ∈ w.deps, row.target = y → GoodRow R cyc w row
 
-/-- An overridden file that exists either failed in this run, or carries no failure mark and is in step with
-its record or still recorded as generated (so that `start_self` will record its new stamp when it visits it). -/
+/-- An overridden file that exists either failed in this run, or is still recorded as generated (so that
+`start_self` will record its new stamp and clear any failure mark when it visits it), or carries no failure mark
+and is in step with its record. -/
 def OV (R : Nat) (w : World) : Prop :=
   ∀ z, (getRec w R z).isOverride = true → existsF w z = true →
-    isFailedR (getRec w R z) R = true ∨
-    ((getRec w R z).failed = none ∧
-      ((getRec w R z).stamp = some (readStamp w z) ∨ (getRec w R z).isGenerated = true))
+    isFailedR (getRec w R z) R = true ∨ (getRec w R z).isGenerated = true ∨
+    ((getRec w R z).failed = none ∧ (getRec w R z).stamp = some (readStamp w z))
 
 /-- A copy `s` of the record of `z` taken earlier in the same dirtiness check. -/
 structure SnapRel (R : Nat) (cyc : List Nat) (w : World) (z : Nat) (s : Rec) : Prop where
   wf : WFrec R s
   stamp : s.stamp = (getRec w R z).stamp
   changed : s.changed = (getRec w R z).changed
-  ovr : s.isOverride = (getRec w R z).isOverride
+  ovr : (getRec w R z).failed = none → s.isOverride = (getRec w R z).isOverride
   failed : s.failed = (getRec w R z).failed ∨
     (s.failed = none ∧ (getRec w R z).failed = some 0 ∧ s.stamp ≠ some (readStamp w z) ∧ isCheckedR s R = false)
   gen : (getRec w R z).failed = none → s.isGenerated = (getRec w R z).isGenerated
@@ -141,7 +141,7 @@ theorem SnapRel.fresh {R : Nat} {cyc : List Nat} {w : World} (h : WFR R w) (z : 
   wf := WFrec.getRec h z
   stamp := rfl
   changed := rfl
-  ovr := rfl
+  ovr := fun _ => rfl
   failed := .inl rfl
   gen := fun _ => rfl
   unchecked := fun _ => rfl
